@@ -324,7 +324,7 @@ Oracle P1-P5 over the ordered write/serve log. non-trivial = non-2xx with body >
     }
 
     fn cases_per_worker(tier: Tier) -> u32 {
-        tier.pick(600, 10_000)
+        tier.pick(600, 25_000)
     }
 
     fn strategy(_tier: Tier) -> BoxedStrategy<Case> {
